@@ -147,6 +147,7 @@ func heldAt(fn *ssa.Function, entry heldSet) map[ssa.Instruction]heldSet {
 			}
 			op, recv := lockOp(call)
 			if op == "" {
+				applyLockSummary(call, h)
 				continue
 			}
 			p := accessPath(recv)
@@ -207,6 +208,144 @@ func heldAt(fn *ssa.Function, entry heldSet) map[ssa.Instruction]heldSet {
 		}
 	}
 	return rec
+}
+
+// lockSummary: the effect of calling in-module function g on the locks
+// reachable from its parameters.  Acquired: paths ("P:<param><suffix>") held
+// at every return of g when nothing is held at entry (a lock-taking helper
+// such as `func (s *Store) lockExclusive() func() { s.sync.Lock(); return
+// s.sync.Unlock }`).  Released: paths that g may unlock anywhere (plain or
+// deferred), which a caller must no longer count on.
+type lockSummaryT struct {
+	Acquired heldSet
+	Released map[string]bool
+}
+
+var (
+	lockSummaryCache = map[*ssa.Function]*lockSummaryT{}
+	lockSummaryBusy  = map[*ssa.Function]bool{}
+)
+
+func lockSummary(g *ssa.Function) *lockSummaryT {
+	if s, ok := lockSummaryCache[g]; ok {
+		return s
+	}
+	empty := &lockSummaryT{}
+	if g == nil || len(g.Blocks) == 0 || lockSummaryBusy[g] || !inModule(g) {
+		return empty
+	}
+	// cheap pre-filter: g itself performs a lock operation
+	has := false
+	AllInstrs(g, func(in ssa.Instruction) {
+		if ci, ok := in.(ssa.CallInstruction); ok {
+			if op, _ := lockOp(ci); op != "" {
+				has = true
+			}
+		}
+	})
+	if !has {
+		lockSummaryCache[g] = empty
+		return empty
+	}
+	lockSummaryBusy[g] = true
+	defer delete(lockSummaryBusy, g)
+	out := &lockSummaryT{Released: map[string]bool{}}
+	rec := heldAt(g, heldSet{})
+	var acq heldSet
+	nret := 0
+	AllInstrs(g, func(in ssa.Instruction) {
+		switch u := in.(type) {
+		case *ssa.Return:
+			h, ok := rec[in]
+			if !ok {
+				return // unreachable
+			}
+			nret++
+			acq = meet(acq, h)
+		case ssa.CallInstruction:
+			if op, recv := lockOp(u); op == "U" || op == "RU" {
+				out.Released[accessPath(recv)] = true
+			}
+		}
+	})
+	// a deferred unlock releases at exit whatever the body acquired
+	out.Acquired = heldSet{}
+	if nret > 0 {
+		for k, v := range acq {
+			if strings.HasPrefix(k, "P:") && !out.Released[k] {
+				out.Acquired[k] = v
+			}
+		}
+	}
+	lockSummaryCache[g] = out
+	return out
+}
+
+// translateParamPath renders the callee-side path "P:<param><suffix>" on the
+// caller's side of the call ("" when it does not start at a parameter).
+func translateParamPath(g *ssa.Function, args []ssa.Value, path string) string {
+	if !strings.HasPrefix(path, "P:") {
+		return ""
+	}
+	rest := path[2:]
+	pname, suffix := rest, ""
+	if i := strings.IndexAny(rest, ".*"); i >= 0 {
+		pname, suffix = rest[:i], rest[i:]
+	}
+	for i, p := range g.Params {
+		if p.Name() == pname && i < len(args) {
+			return accessPath(args[i]) + suffix
+		}
+	}
+	return ""
+}
+
+// applyLockSummary updates the must-hold set h across a plain call that is
+// not itself a mutex operation:
+//   - a static call of a helper that returns with locks of its arguments held
+//     adds them (and a helper that may unlock removes them);
+//   - a call of a function value that such a helper returned (the `unlock`
+//     it hands over), or of a bound Unlock/RUnlock method value, releases.
+func applyLockSummary(call *ssa.Call, h heldSet) {
+	if call.Call.IsInvoke() {
+		return
+	}
+	if g := StaticCallee(call); g != nil {
+		s := lockSummary(g)
+		for k := range s.Released {
+			if ap := translateParamPath(g, call.Call.Args, k); ap != "" {
+				delete(h, ap)
+			}
+		}
+		for k, m := range s.Acquired {
+			if ap := translateParamPath(g, call.Call.Args, k); ap != "" && h[ap] < m {
+				h[ap] = m
+			}
+		}
+		return
+	}
+	if _, isB := call.Call.Value.(*ssa.Builtin); isB {
+		return
+	}
+	for _, r := range Roots(call.Call.Value) {
+		if ex, ok := r.(*ssa.Extract); ok {
+			r = ex.Tuple
+		}
+		switch u := r.(type) {
+		case *ssa.Call:
+			if g := StaticCallee(u); g != nil {
+				for k := range lockSummary(g).Acquired {
+					if ap := translateParamPath(g, u.Call.Args, k); ap != "" {
+						delete(h, ap)
+					}
+				}
+			}
+		case *ssa.MakeClosure:
+			if f, ok := u.Fn.(*ssa.Function); ok && len(u.Bindings) == 1 && (strings.HasSuffix(f.Name(), "Unlock$bound") || strings.HasSuffix(f.Name(), "RUnlock$bound")) {
+				delete(h, accessPath(u.Bindings[0]))
+			}
+		}
+	}
 }
 
 type fieldAccess struct {
@@ -370,6 +509,11 @@ func LockCheck(c *Ctx, rule string, specs []GuardSpec, pkgs []string) {
 			ap := accessPath(args[pidx]) + suffix
 			caller := call.Parent()
 			if pathIsFresh(ap) {
+				continue
+			}
+			if _, isPlain := call.(*ssa.Call); isPlain && c06FreshThroughStep(caller, args[pidx]) {
+				// the caller is a step closure of a step table that its parent runs on the spot, and the
+				// object is the parent's captured, still private object under construction
 				continue
 			}
 			if _, isDefer := call.(*ssa.Defer); isDefer {
